@@ -57,6 +57,8 @@
 pub mod test_macros;
 
 pub mod error;
+#[cfg(feature = "verif-hooks")]
+pub mod verif_hooks;
 pub mod filesystem;
 pub mod impls;
 pub mod path;
